@@ -46,7 +46,7 @@ ASSUMPTIONS = [
     "a resource and a sub-site registered at the same path ('odd design, not fully supported') is never generated; remove_resource is only called for registered paths",
     "PathCapable leaves without get_resources_as_linkheader contribute no links",
 ]
-REQUIRED_MONITORS = {"wkc_by_path_abbreviation": 1000, 
+REQUIRED_MONITORS = {"wkc_filter_case_variant": 300, "wkc_by_path_abbreviation": 1000, 
     "quick": {"route_handler": 30000, "route_404": 40000, "stripped_path": 30000, "request_uri": 30000, "nested_hop": 10000, "two_level_hop": 2500, "longest_prefix": 1000, "exact_over_subsite": 1500, "empty_remainder_decisive": 200, "after_add": 8000, "after_remove": 3000, "wkc_listing": 7000, "wkc_listing_nested": 4000, "wkc_filter": 8000, "wkc_filter_star": 4000, "wkc_hidden": 3000, "path_sweep": 4000, "direct_render": 50000},
     "thorough": {"route_handler": 900000, "route_404": 1200000, "stripped_path": 900000, "request_uri": 900000, "nested_hop": 300000, "two_level_hop": 75000, "longest_prefix": 30000, "exact_over_subsite": 45000, "empty_remainder_decisive": 6000, "after_add": 240000, "after_remove": 90000, "wkc_listing": 210000, "wkc_listing_nested": 120000, "wkc_filter": 240000, "wkc_filter_star": 120000, "wkc_hidden": 90000, "path_sweep": 120000, "direct_render": 1500000},
 }
@@ -55,10 +55,10 @@ WORKER_TIMEOUT = {"quick": 600, "thorough": 7200}
 
 SEGS = ["a", "b", "c", ""]
 NF = ("404",)
-RT_VALUES = ["x", "y", "xy", "x.y", "temp", "x y", "xy x", "temp x.y y"]
-IF_VALUES = ["s", "core.s", "core.a", "s core.a"]
+RT_VALUES = ["x", "y", "xy", "x.y", "temp", "x y", "xy x", "temp x.y y", "X", "Temp", "x Y", "TEMP x"]
+IF_VALUES = ["s", "core.s", "core.a", "s core.a", "S", "Core.s"]
 CT_VALUES = [0, 40, 50, "0 40", "40 50 60"]
-TITLE_VALUES = ["t", "temp", "x y", 'a,b;c "q"']
+TITLE_VALUES = ["t", "temp", "x y", 'a,b;c "q"', "T", "Temp", "X y"]
 SZ_VALUES = ["1", "12", "120"]
 FIXED = ["rootmount", "filter-absent-attribute", "filter-title", "filter-valueless", "docstring-batch"]
 
@@ -866,6 +866,11 @@ class Scenario:
                 base = r.choice(pool)
                 if " " in base and r.random() < 0.7:
                     base = r.choice(base.split(" "))
+            if r.random() < 0.2 and any(c.isalpha() for c in base):
+                # the same value in another case: values (resource types, interface names, titles, paths) are
+                # compared as they are, a twin that differs in case only is another value
+                base = r.choice([base.upper(), base.lower(), base.swapcase(), base.capitalize()])
+                self.rep.monitor("wkc_filter_case_variant")
             m = r.random()
             if m < 0.35:
                 pat = base
